@@ -33,6 +33,22 @@ use std::io::{BufRead, Write};
 // canonical dump
 // ------------------------------------------------------------------------------------------------
 
+thread_local! {
+  /// class names imported from two different modules in the module being dumped
+  static AMBIGUOUS: std::cell::RefCell<std::collections::HashSet<String>> = std::cell::RefCell::new(Default::default());
+}
+
+/// The module a class name resolves to.  A name imported from two different modules resolves to
+/// whichever import line comes last (and the checker rejects the collision): that is a function of
+/// the order of the import lines, which the property puts aside, so it is dumped as "<ambiguous>".
+fn d_class_module(heap: &Heap, m: &samlang_heap::ModuleReference, name: &str) -> String {
+  if AMBIGUOUS.with(|a| a.borrow().contains(name)) {
+    "<ambiguous>".to_string()
+  } else {
+    m.pretty_print(heap)
+  }
+}
+
 fn d_annot(heap: &Heap, a: &annotation::T) -> Value {
   match a {
     annotation::T::Primitive(_, _, k) => json!({"k": "prim", "n": k.kind_str()}),
@@ -49,7 +65,7 @@ fn d_annot(heap: &Heap, a: &annotation::T) -> Value {
 fn d_id_annot(heap: &Heap, id: &annotation::Id) -> Value {
   json!({
     "k": "aid",
-    "m": id.module_reference.pretty_print(heap),
+    "m": d_class_module(heap, &id.module_reference, id.id.name.as_str(heap)),
     "n": id.id.name.as_str(heap),
     "targs": d_targs(heap, id.type_arguments.as_ref()),
   })
@@ -127,7 +143,9 @@ pub fn d_expr(heap: &Heap, e: &expr::E<()>) -> Value {
     expr::E::Literal(_, Literal::Int(i)) => json!({"k": "int", "v": i.to_string()}),
     expr::E::Literal(_, Literal::String(s)) => json!({"k": "str", "v": s.as_str(heap)}),
     expr::E::LocalId(_, id) => json!({"k": "id", "n": id.name.as_str(heap)}),
-    expr::E::ClassId(_, m, id) => json!({"k": "cls", "n": id.name.as_str(heap), "m": m.pretty_print(heap)}),
+    expr::E::ClassId(_, m, id) => {
+      json!({"k": "cls", "n": id.name.as_str(heap), "m": d_class_module(heap, m, id.name.as_str(heap))})
+    }
     expr::E::Tuple(_, l) => {
       json!({"k": "tuple", "es": l.expressions.iter().map(|x| d_expr(heap, x)).collect::<Vec<_>>()})
     }
@@ -196,12 +214,18 @@ pub fn d_module(heap: &Heap, m: &Module<()>) -> Value {
   // imports: "up to the documented merging and sorting of import lines" — group by module,
   // concatenate the member lists, sort both levels
   let mut imports: BTreeMap<String, Vec<String>> = BTreeMap::new();
+  let mut from: BTreeMap<String, std::collections::BTreeSet<String>> = BTreeMap::new();
   for i in &m.imports {
-    let e = imports.entry(i.imported_module.pretty_print(heap)).or_default();
+    let module = i.imported_module.pretty_print(heap);
+    let e = imports.entry(module.clone()).or_default();
     for n in &i.imported_members {
       e.push(n.name.as_str(heap).to_string());
+      from.entry(n.name.as_str(heap).to_string()).or_default().insert(module.clone());
     }
   }
+  AMBIGUOUS.with(|a| {
+    *a.borrow_mut() = from.into_iter().filter(|(_, ms)| ms.len() > 1).map(|(n, _)| n).collect();
+  });
   let imports: Vec<Value> = imports
     .into_iter()
     .map(|(m, mut ns)| {
@@ -557,7 +581,7 @@ pub fn trees(args: &[String]) {
 // syntax-modules: whole-module round trips (corpus files, generated modules, explicit files)
 // ------------------------------------------------------------------------------------------------
 
-fn module_records(case: &str, text: &str, w: &mut impl Write, stats: &mut ModStats) {
+fn module_record(case: &str, text: &str, stats: &mut ModStats) {
   let p = match parse_module(text) {
     Ok(p) if p.errors.is_empty() => p,
     Ok(p) => {
@@ -567,7 +591,7 @@ fn module_records(case: &str, text: &str, w: &mut impl Write, stats: &mut ModSta
     }
     Err(e) => {
       stats.skipped_syntax_errors += 1;
-      stats.skipped_samples.push(json!({"case": case, "errors": [format!("parser panicked: {e}")]}));
+      push5(&mut stats.skipped_samples, json!({"case": case, "errors": [format!("parser panicked: {e}")]}));
       return;
     }
   };
@@ -579,7 +603,7 @@ fn module_records(case: &str, text: &str, w: &mut impl Write, stats: &mut ModSta
   let (trips, _) = trips_of(&p, &|t: &Trip| t.reparsed.clone());
   stats.records += 1;
   stats.trips += trips.len();
-  writeln!(w, "{}", json!({"case": case, "kind": "module", "orig": orig, "trips": trips})).unwrap();
+  stats.out.push(json!({"case": case, "kind": "module", "orig": orig, "trips": trips}).to_string());
 }
 
 #[derive(Default)]
@@ -590,6 +614,7 @@ struct ModStats {
   in_region: usize,
   skipped_syntax_errors: usize,
   skipped_samples: Vec<Value>,
+  out: Vec<String>,
 }
 
 fn sam_files(dir: &str) -> Vec<String> {
@@ -606,55 +631,50 @@ fn sam_files(dir: &str) -> Vec<String> {
   v
 }
 
-/// --corpus DIR[,DIR..]  every .sam file;  --gen N --seed S  generated modules (sources are written to
-/// --srcdir so that a failing case can be replayed);  --files a.sam,b.sam  explicit files;
-/// --comments K  additionally, for every corpus file, K variants with one comment inserted at a
-/// token boundary (the tree must not change: comments are not part of the tree)
+/// --corpus DIR[,DIR..]  every .sam file;  --gen N --seed S  generated modules;  --files a.sam,b.sam  explicit
+/// files;  --comments K  additionally, for every corpus file, K variants with one comment inserted at a
+/// token boundary (the tree must not change: comments are not part of the tree).  The text of every
+/// generated module / comment variant is written to --srcdir so that a failing case can be replayed.
 pub fn modules(args: &[String]) {
   silence_panics();
   let out = arg(args, "--out").expect("--out");
-  let mut w = std::io::BufWriter::new(std::fs::File::create(&out).unwrap());
-  let mut stats = ModStats::default();
   let srcdir = arg(args, "--srcdir");
   if let Some(d) = &srcdir {
     std::fs::create_dir_all(d).unwrap();
   }
+  let seed: u64 = arg_or(args, "--seed", "1").parse().unwrap();
+  let mut work: Vec<(String, String)> = vec![];
   let mut corpus_files = 0;
+  let mut comment_variants_n = 0;
   if let Some(dirs) = arg(args, "--corpus") {
     let k: usize = arg_or(args, "--comments", "0").parse().unwrap();
-    let seed: u64 = arg_or(args, "--seed", "1").parse().unwrap();
     let mut rng = Rng::new(seed ^ 0xC0FFEE);
     for d in dirs.split(',') {
       for f in sam_files(d) {
         let text = std::fs::read_to_string(&f).unwrap();
         corpus_files += 1;
-        module_records(&f, &text, &mut w, &mut stats);
         if k > 0 {
+          let d = srcdir.clone().expect("--srcdir is required with --comments");
           for (i, v) in comment_variants(&text, k, &mut rng).into_iter().enumerate() {
-            let case = format!("{f}#comment{i}");
-            if let Some(d) = &srcdir {
-              let name = format!("{}-comment{i}.sam", std::path::Path::new(&f).file_stem().unwrap().to_string_lossy());
-              let path = format!("{d}/{name}");
-              std::fs::write(&path, &v).unwrap();
-              module_records(&path, &v, &mut w, &mut stats);
-            } else {
-              module_records(&case, &v, &mut w, &mut stats);
-            }
+            let name = format!("{}-comment{i}.sam", std::path::Path::new(&f).file_stem().unwrap().to_string_lossy());
+            let path = format!("{d}/{name}");
+            std::fs::write(&path, &v).unwrap();
+            work.push((path, v));
+            comment_variants_n += 1;
           }
         }
+        work.push((f, text));
       }
     }
   }
   if let Some(files) = arg(args, "--files") {
     for f in files.split(',') {
-      let text = std::fs::read_to_string(f).unwrap();
-      module_records(f, &text, &mut w, &mut stats);
+      work.push((f.to_string(), std::fs::read_to_string(f).unwrap()));
     }
   }
   let n: usize = arg_or(args, "--gen", "0").parse().unwrap();
   let mut gen_samples = vec![];
   if n > 0 {
-    let seed: u64 = arg_or(args, "--seed", "1").parse().unwrap();
     let d = srcdir.clone().expect("--srcdir is required with --gen");
     for i in 0..n {
       let mut rng = Rng::new(seed.wrapping_mul(1_000_003).wrapping_add(i as u64));
@@ -664,13 +684,53 @@ pub fn modules(args: &[String]) {
       if i < 2 {
         gen_samples.push(text.clone());
       }
-      module_records(&path, &text, &mut w, &mut stats);
+      work.push((path, text));
+    }
+  }
+  let threads = std::thread::available_parallelism().map(|n| n.get()).unwrap_or(4).min(16).max(1);
+  // round-robin so that the big corpus files spread over the threads; output order is restored below
+  let parts: Vec<Vec<(usize, ModStats)>> = std::thread::scope(|s| {
+    let work = &work;
+    let handles: Vec<_> = (0..threads)
+      .map(|tid| {
+        s.spawn(move || {
+          silence_panics();
+          let mut v = vec![];
+          let mut i = tid;
+          while i < work.len() {
+            let mut st = ModStats::default();
+            module_record(&work[i].0, &work[i].1, &mut st);
+            v.push((i, st));
+            i += threads;
+          }
+          v
+        })
+      })
+      .collect();
+    handles.into_iter().map(|h| h.join().unwrap()).collect()
+  });
+  let mut all: Vec<(usize, ModStats)> = parts.into_iter().flatten().collect();
+  all.sort_by_key(|x| x.0);
+  let mut w = std::io::BufWriter::new(std::fs::File::create(&out).unwrap());
+  let mut stats = ModStats::default();
+  for (_, mut st) in all {
+    for l in st.out.drain(..) {
+      writeln!(w, "{l}").unwrap();
+    }
+    stats.modules += st.modules;
+    stats.records += st.records;
+    stats.trips += st.trips;
+    stats.in_region += st.in_region;
+    stats.skipped_syntax_errors += st.skipped_syntax_errors;
+    for x in st.skipped_samples.drain(..) {
+      push5(&mut stats.skipped_samples, x);
     }
   }
   w.flush().unwrap();
   println!(
     "{}",
-    json!({"corpus_files": corpus_files, "modules": stats.modules, "records": stats.records, "round_trips": stats.trips, "in_assoc_region": stats.in_region,
+    json!({"corpus_files": corpus_files, "comment_variants": comment_variants_n, "modules": stats.modules, "records": stats.records,
+           "round_trips": stats.trips, "in_assoc_region": stats.in_region,
            "skipped_syntax_errors": stats.skipped_syntax_errors, "skipped_samples": stats.skipped_samples,
            "generated": n, "generated_samples": gen_samples})
   );
